@@ -9,6 +9,7 @@ import (
 	"path/filepath"
 	"sort"
 	"strings"
+	"sync"
 
 	"golang.org/x/tools/go/packages"
 )
@@ -23,15 +24,19 @@ const prelude = `(set-option :produce-models true)
 (assert (forall ((b Int) (k Int)) (! (and (<= 0 (memB b k)) (< (memB b k) 256)) :pattern ((memB b k)))))
 (define-fun wfS ((s Slice)) Bool (and (<= 0 (sbase s)) (<= 0 (soff s)) (<= 0 (slen s)) (<= (slen s) (scap s)) (<= (scap s) 281474976710656) (<= (soff s) 281474976710656)))
 (assert (forall ((b Int) (k Int)) (! (wfS (memS b k)) :pattern ((memS b k)))))
+(declare-fun atB (Slice Int) Int)
+(declare-fun atI (Slice Int) Int)
+(declare-fun atS (Slice Int) Slice)
+(declare-fun atO (Slice Int) Bool)
+(assert (forall ((s Slice) (i Int)) (! (= (atB s i) (memB (sbase s) (+ (soff s) i))) :pattern ((atB s i)))))
+(assert (forall ((s Slice) (i Int)) (! (= (atI s i) (memI (sbase s) (+ (soff s) i))) :pattern ((atI s i)))))
+(assert (forall ((s Slice) (i Int)) (! (= (atS s i) (memS (sbase s) (+ (soff s) i))) :pattern ((atS s i)))))
+(assert (forall ((s Slice) (i Int)) (! (= (atO s i) (memO (sbase s) (+ (soff s) i))) :pattern ((atO s i)))))
 (declare-fun bytesEq (Slice Slice) Bool)
 (assert (forall ((a Slice) (b Slice)) (! (=> (bytesEq a b) (and (= (slen a) (slen b))
-  (forall ((j Int)) (! (=> (and (<= (soff a) j) (< j (+ (soff a) (slen a)))) (= (memB (sbase a) j) (memB (sbase b) (+ (- j (soff a)) (soff b))))) :pattern ((memB (sbase a) j))))
-  (forall ((j Int)) (! (=> (and (<= (soff b) j) (< j (+ (soff b) (slen b)))) (= (memB (sbase b) j) (memB (sbase a) (+ (- j (soff b)) (soff a))))) :pattern ((memB (sbase b) j)))))) :pattern ((bytesEq a b)))))
+  (forall ((j Int)) (! (=> (and (<= (soff a) j) (< j (+ (soff a) (slen a)))) (= (memB (sbase a) j) (memB (sbase b) (+ (- j (soff a)) (soff b))))) :pattern ((memB (sbase a) j)) :weight 8))
+  (forall ((j Int)) (! (=> (and (<= (soff b) j) (< j (+ (soff b) (slen b)))) (= (memB (sbase b) j) (memB (sbase a) (+ (- j (soff b)) (soff a))))) :pattern ((memB (sbase b) j)) :weight 8)))) :pattern ((bytesEq a b)))))
 (assert (forall ((a Slice) (b Slice)) (! (=> (and (= (slen a) (slen b)) (forall ((j Int)) (=> (and (<= (soff a) j) (< j (+ (soff a) (slen a)))) (= (memB (sbase a) j) (memB (sbase b) (+ (- j (soff a)) (soff b))))))) (bytesEq a b)) :pattern ((bytesEq a b)))))
-(assert (forall ((a Slice) (b Slice) (c Slice)) (! (=> (and (bytesEq a b) (bytesEq b c)) (bytesEq a c)) :pattern ((bytesEq a b) (bytesEq b c)))))
-(assert (forall ((a Slice) (b Slice) (c Slice)) (! (=> (and (bytesEq a b) (bytesEq a c)) (bytesEq b c)) :pattern ((bytesEq a b) (bytesEq a c)))))
-(assert (forall ((a Slice) (b Slice) (c Slice)) (! (=> (and (bytesEq b a) (bytesEq c a)) (bytesEq b c)) :pattern ((bytesEq b a) (bytesEq c a)))))
-(assert (forall ((a Slice) (b Slice)) (! (= (bytesEq a b) (bytesEq b a)) :pattern ((bytesEq a b)))))
 (assert (forall ((a Slice)) (! (bytesEq a a) :pattern ((bytesEq a a)))))
 (declare-fun dyntype (Int) Int)
 (declare-fun ifaceI (Int) Int)
@@ -164,6 +169,10 @@ type FuncResult struct {
 	LibUsed     []string
 	Trusted     bool
 	BodyHash    string
+	Behavior    string
+	declNames   map[string]bool
+	symCache    map[*T]map[string]bool
+	mu          sync.Mutex
 }
 
 func keysOf(m map[string]bool) []string {
@@ -176,10 +185,49 @@ func keysOf(m map[string]bool) []string {
 }
 
 // verifyFunc generates the verification conditions of one function under contract.
-func verifyFunc(prog *Program, key string) (res *FuncResult) {
+func verifyFunc(prog *Program, key string) (res *FuncResult) { return verifyFuncBeh(prog, key, nil) }
+
+// verifyAll verifies the default contract and every behavior of a function.
+func verifyAll(prog *Program, key string) []*FuncResult {
+	out := []*FuncResult{verifyFuncBeh(prog, key, nil)}
+	if fc := prog.contracts.Funcs[key]; fc != nil {
+		for _, b := range fc.Behaviors {
+			out = append(out, verifyFuncBeh(prog, key, b))
+		}
+	}
+	return out
+}
+
+func verifyFuncBeh(prog *Program, key string, beh *Behavior) (res *FuncResult) {
 	res = &FuncResult{Name: key}
 	fn := prog.funcByKey[key]
 	fc := prog.contracts.Funcs[key]
+	if beh != nil && fc != nil {
+		// specialise the contract: assumptions become preconditions, behavior clauses replace the base postconditions
+		cp := *fc
+		cp.Requires = append(append([]*Clause{}, fc.Requires...), beh.Assumes...)
+		cp.Ensures = beh.Ensures
+		cp.Checks = nil
+		cp.Loops = map[int]*LoopContract{}
+		for n, lc := range fc.Loops {
+			c2 := *lc
+			cp.Loops[n] = &c2
+		}
+		for n, lc := range beh.Loops {
+			if base, ok := cp.Loops[n]; ok {
+				base.Invariants = append(append([]*Clause{}, base.Invariants...), lc.Invariants...)
+				if lc.Decreases != nil {
+					base.Decreases = lc.Decreases
+				}
+			} else {
+				cp.Loops[n] = lc
+			}
+		}
+		cp.Behaviors = nil
+		fc = &cp
+		res.Name = key + "{" + beh.Name + "}"
+		res.Behavior = beh.Name
+	}
 	if fn == nil {
 		res.Drift = append(res.Drift, "function "+key+" not found in the source")
 		return res
@@ -196,6 +244,10 @@ func verifyFunc(prog *Program, key string) (res *FuncResult) {
 	res.File = prog.fset.Position(decl.Pos()).Filename
 	ex := newExec(prog, pkg, fn, fc)
 	ex.name = pkg.Types.Name() + "." + fc.Key
+	if beh != nil {
+		ex.name += "{" + beh.Name + "}"
+		ex.skipSafety = true
+	}
 	defer func() {
 		if r := recover(); r != nil {
 			res.Errors = append(res.Errors, fmt.Sprintf("engine panic in %s at %s: %v", key, ex.posString(ex.curPos), r))
@@ -249,10 +301,18 @@ func verifyFunc(prog *Program, key string) (res *FuncResult) {
 	for i := 0; i < sig.Params().Len(); i++ {
 		args = append(args, mkParam(sig.Params().At(i)))
 	}
+	for gi, gn := range fc.GhostNames {
+		gt := ex.lookupType(pkg.Types, fc.GhostTypes[gi])
+		c := ex.fresh("gp."+sanitize(gn), sortOf(gt))
+		ex.rawFact(ex.typeFact(gt, c))
+		sc.vars[gn] = Val{c, gt}
+		ex.paramVals[gn] = Val{c, gt}
+	}
 	for _, c := range fc.Requires {
 		ex.assume(ex.specBool(sc, c))
 	}
 	ex.oldState = ex.st.clone()
+	ex.frameVars = sc.vars
 	checkEnsures := func(outs []Val, suffix string) {
 		if ex.st.dead {
 			return
@@ -300,22 +360,30 @@ func verifyFunc(prog *Program, key string) (res *FuncResult) {
 			ex.curPos = decl.Pos()
 			ex.assert(kind, "ensures["+lab+"]"+suffix, g)
 		}
+		// local checks may name variables of the function body (scope at the closing brace)
+		post.pos = decl.Body.Rbrace
+		for i, c := range fc.Checks {
+			kind, lab := "E", c.Label
+			if lab == "" {
+				lab = fmt.Sprint(i + 1)
+			}
+			if j := strings.Index(lab, ":"); j == 1 {
+				kind, lab = lab[:1], lab[2:]
+			}
+			g := ex.specBool(post, c)
+			ex.curPos = decl.Pos()
+			ex.assert(kind, "check["+lab+"]"+suffix, g)
+		}
+		post.pos = token.NoPos
 	}
 	ex.exitHook = checkEnsures
 	outs := ex.inlineBody(fn.FullName(), sig, decl.Type, decl.Body, decl.Recv, recv, args, pkg, fc, true)
 	if !ex.exitsChecked {
 		checkEnsures(outs, "")
 	}
-	if !ex.st.dead {
-		ex.curPos = decl.Pos()
-		ex.frameVars = sc.vars
-		if g := ex.frameFormula(ex.st, nil); g != True {
-			ex.assert("O", "frame", g)
-		}
-	}
 	res.Obls = ex.obls
 	for _, o := range res.Obls {
-		o.FuncKey = key
+		o.FuncKey = res.Name
 	}
 	for _, n := range ex.declOrder {
 		if d := ex.decls[n]; d != "" {
@@ -325,6 +393,11 @@ func verifyFunc(prog *Program, key string) (res *FuncResult) {
 	res.Facts = ex.facts
 	res.Errors = dedupe(ex.errs)
 	res.Drift = append(res.Drift, ex.drift...)
+	for _, b := range fc.Binds {
+		if !ex.bindsUsed[b] {
+			res.Drift = append(res.Drift, fmt.Sprintf("%s: bind %q matches no call expression", key, b.CallText))
+		}
+	}
 	res.Unmodelled = keysOf(ex.unmodelled)
 	res.Stores = keysOf(ex.stores)
 	res.Assumptions = keysOf(ex.assumptions)
@@ -352,17 +425,70 @@ func paramObj(decl *ast.FuncDecl, pkg *packages.Package, name string) types.Obje
 // query renders the SMT-LIB text of one obligation.
 func (r *FuncResult) query(o *Obl, withModel bool) string { return r.queryMode(o, withModel, false) }
 
-// queryMode renders the query; in light mode quantified facts are left out (dropping assumptions is sound).
-func (r *FuncResult) queryMode(o *Obl, withModel, light bool) string {
+// symbolsOf returns the declared (non-builtin) symbols occurring in a term, ignoring path-condition names.
+func (r *FuncResult) symbolsOf(t *T) map[string]bool {
+	if r.declNames == nil {
+		r.declNames = map[string]bool{}
+		for _, d := range r.Decls {
+			if strings.HasPrefix(d, "(declare-fun ") {
+				rest := d[len("(declare-fun "):]
+				if i := strings.IndexByte(rest, ' '); i > 0 {
+					r.declNames[rest[:i]] = true
+				}
+			}
+		}
+		r.symCache = map[*T]map[string]bool{}
+	}
+	if s, ok := r.symCache[t]; ok {
+		return s
+	}
+	out := map[string]bool{}
+	str := t.str
+	start := -1
+	for i := 0; i <= len(str); i++ {
+		if i < len(str) && str[i] != ' ' && str[i] != '(' && str[i] != ')' {
+			if start < 0 {
+				start = i
+			}
+			continue
+		}
+		if start >= 0 {
+			tok := str[start:i]
+			start = -1
+			if r.declNames[tok] && !strings.HasPrefix(tok, "pc!") && !strings.HasPrefix(tok, "g!") && !strings.HasPrefix(tok, "hyp!") {
+				out[tok] = true
+			}
+		}
+	}
+	r.symCache[t] = out
+	return out
+}
+
+// queryMode renders the query. In local mode a quantified fact is kept only if it shares a declared symbol with
+// the goal (dropping assumptions is sound; a second, complete attempt follows when the local one is not decisive).
+func (r *FuncResult) queryMode(o *Obl, withModel, local bool) string {
 	var sb strings.Builder
 	sb.WriteString(prelude)
 	for _, d := range r.Decls {
 		sb.WriteString(d)
 		sb.WriteByte('\n')
 	}
+	var goalSyms map[string]bool
+	if local {
+		goalSyms = r.symbolsOf(o.Goal)
+	}
 	for _, f := range r.Facts[:o.NFacts] {
-		if light && (strings.Contains(f.str, "(forall ") || strings.Contains(f.str, "(exists ")) {
-			continue
+		if local && strings.Contains(f.str, "(forall ") {
+			keep := false
+			for s := range r.symbolsOf(f) {
+				if goalSyms[s] {
+					keep = true
+					break
+				}
+			}
+			if !keep {
+				continue
+			}
 		}
 		sb.WriteString("(assert ")
 		sb.WriteString(f.String())
@@ -482,4 +608,39 @@ func verifyLemma(prog *Program, name string) (res *FuncResult) {
 	res.Errors = dedupe(ex.errs)
 	res.File = pd.Line
 	return res
+}
+
+// frameTargetsFor returns the modifies targets of the function under verification for a heap key:
+// whole=true when the entire key may change, otherwise the references that may be written.
+func (ex *Exec) frameTargetsFor(key string) (refs []*T, whole bool) {
+	if ex.oldState == nil || ex.fc == nil {
+		return nil, true
+	}
+	ex.frameFormula(ex.oldState, []string{}) // make sure frameTargets is initialised
+	for _, tg := range ex.frameTargets {
+		if tg[0].(string) == key {
+			if tg[1] == nil || tg[1].(*T) == nil {
+				return nil, true
+			}
+			refs = append(refs, tg[1].(*T))
+		}
+	}
+	return refs, false
+}
+
+// checkWrite emits the frame obligation for one write to a heap or ghost cell: the cell belongs to an object
+// allocated by this activation or is named in the function's modifies clause.
+func (ex *Exec) checkWrite(key string, ref *T) {
+	if ex.oldState == nil || ex.fn == nil || ex.st.dead {
+		return
+	}
+	refs, whole := ex.frameTargetsFor(key)
+	if whole {
+		return
+	}
+	conds := []*T{Le(ex.get(ex.oldState, "$alloc"), ref)}
+	for _, r := range refs {
+		conds = append(conds, Eq(ref, r))
+	}
+	ex.assert("O", "write["+strings.TrimPrefix(key, "$")+"]", Or(conds...))
 }
